@@ -431,10 +431,10 @@ func readJournal(path string) *c15Result {
 
 func deathKind(stderr string) string {
 	switch {
-	case strings.Contains(stderr, "out of memory"):
-		return "fatal-out-of-memory"
-	case strings.Contains(stderr, "makeslice"):
-		return "panic-makeslice"
+	// one root cause, three faces depending on the declared size and the memory budget
+	case strings.Contains(stderr, "out of memory"), strings.Contains(stderr, "makeslice"),
+		strings.Contains(stderr, "address space collisions"), strings.Contains(stderr, "cannot allocate"):
+		return "allocation-sized-by-declared-length"
 	case strings.Contains(stderr, "index out of range"):
 		return "panic-index-out-of-range"
 	case strings.Contains(stderr, "nil pointer"):
@@ -566,7 +566,7 @@ func RunC15(tier string, seed int64, race bool) int {
 						atomic.AddInt64(&hangs, 1)
 					}
 					run.Eval(1)
-					run.Violate(common.Violation{Clause: "process-keeps-running", Signature: "process-death/" + kind2 + "/" + classRoot(res.classes[i]) + "/" + topRepoFrame(stderr2),
+					run.Violate(common.Violation{Clause: "process-keeps-running", Signature: deathSig(kind2, classRoot(res.classes[i]), topRepoFrame(stderr2)),
 						Detail: fmt.Sprintf("worker process died (%s) on input %s at stage %s; reproduced alone; first lines: %s", kind2, res.classes[i], res.stages[i], firstLines(stderr2, 4)),
 						Witness: map[string]interface{}{"kind": "hostile-input", "class": res.classes[i], "stage": res.stages[i], "bytes_hex_prefix": res.hexes[i], "seed": seed, "batch": b, "index": i, "per_batch": perBatch}})
 				}
@@ -599,4 +599,14 @@ func firstLines(s string, n int) string {
 		}
 	}
 	return strings.Join(out, " | ")
+}
+
+// deathSig: an allocation sized by a declared length is identified by the input class alone (the
+// frame and the runtime's message vary with the declared size and the memory budget); any other
+// death keeps its top repository/dependency frame in the signature.
+func deathSig(kind, class, frame string) string {
+	if kind == "allocation-sized-by-declared-length" {
+		return "process-death/" + kind + "/" + class
+	}
+	return "process-death/" + kind + "/" + class + "/" + frame
 }
